@@ -50,7 +50,12 @@ def nominative_doc(rng):
     nm = rng.choice(["Thompson", "Cooke", "Holmes", "Olcott", "Chase", "Gilmer", "Bee", "Deady", "Taney"])
     v, p = gen.num(rng), gen.num(rng)
     r = rng.random()
-    if r < 0.4:
+    if r < 0.15:
+        # a nominative citation that is KEPT, then a special token glued to the first character of the next
+        # citation (overlapping candidates right after a kept nominative one)
+        glue = rng.choice(["§", "§§", "¶", "Id.", "supra,"])
+        s = f"{gen.num(rng)} {nm} {gen.num(rng)} {glue}{v} {rng.choice(['U.S.C. § ' + p, gen.rep(rng) + ' ' + p])}"
+    elif r < 0.4:
         s = f"{gen.name(rng)} v. {nm}, {v} {gen.rep(rng)} {p}"
     elif r < 0.6:
         s = f"{gen.num(rng)} {nm} {v} {gen.rep(rng)} {p}"
